@@ -30,6 +30,7 @@ func init() {
 			{"C19.tainted-loops", "loops bounded by an input value consume input each iteration", 1, c19TaintedLoops},
 			{"C19.exact-reads", "fixed-size fields are read completely (no direct Read in the decoding primitives; byte counts used)", 1, func(c *Ctx) { c.exactReads() }},
 			{"C19.fixed-size", "fixed-size elements check their size field", 2, c19FixedSize},
+			{"C19.header-eof", "an end of the stream inside an element header is an error, not the regular end", 1, c19HeaderEOF},
 		},
 	})
 }
@@ -980,5 +981,56 @@ func c19SearchBounds(c *Ctx) {
 		} else {
 			c.bad("search-bounds", token.NoPos, "the decoders search their input (%d Index call(s)) but no bound taken from a search result was recognised", searches)
 		}
+	}
+}
+
+// c19HeaderEOF: a stream that ends inside an element header is not a regular end.
+// FormatDecoder.Next takes io.EOF from ReadHeader for "no more elements"; ReadHeader reads two
+// words, and only an end before the first one is an end between elements.  An io.EOF of the
+// second read that reached the caller as io.EOF made a catar cut 8 bytes into a header decode
+// without an error (truncations of valid files are in the property's quantifier).
+func c19HeaderEOF(c *Ctx) {
+	fn := c.mustFn("reader.ReadHeader")
+	if fn == nil {
+		return
+	}
+	var bad []string
+	eofPaths := 0
+	h := &Hooks{MaxVisits: 2, MaxPaths: 10000}
+	h.Fork = func(st *State, call *ssa.Call) []map[int]Val {
+		if callee(call) != "(desync.reader).ReadUint64" {
+			return nil
+		}
+		st.Emit("word", "", call)
+		if st.Count("word") < 2 {
+			return []map[int]Val{{1: {N: NNil, Class: ClsNil}}, {1: {N: NNon, Class: ClsOther, Sym: "first-word-failed"}}}
+		}
+		return []map[int]Val{{1: {N: NNil, Class: ClsNil}}, {1: {N: NNon, Class: ClsOther, Sym: "is:io.EOF"}}}
+	}
+	h.Return = func(st *State, ret *ssa.Return, results []Val) {
+		mid := false
+		for _, v := range st.V {
+			if v.Sym == "is:io.EOF" {
+				mid = true
+			}
+		}
+		if !mid || len(results) == 0 {
+			return
+		}
+		eofPaths++
+		r := results[len(results)-1]
+		if r.Sym == "is:io.EOF" || r.N != NNon {
+			bad = append(bad, fmt.Sprintf("return at %s yields %s after the second word of the header met the end of the stream", c.pos(ret.Pos()), r))
+		}
+	}
+	Explore(fn, fn.Blocks[0], 0, nil, NewState(), h)
+	c.paths += h.Paths
+	switch {
+	case eofPaths == 0:
+		c.bad("reader.ReadHeader:mid-header-eof", fn.Pos(), "no path found on which the second word of a header fails")
+	case len(bad) > 0:
+		c.bad("reader.ReadHeader:mid-header-eof", fn.Pos(), "%s: FormatDecoder.Next takes io.EOF for the regular end of the stream, a catar or index cut in the middle of an element header decodes without an error", bad[0])
+	default:
+		c.ok("reader.ReadHeader:mid-header-eof", fn.Pos(), "on %d path(s) an end of the stream inside the header is returned as an error other than io.EOF", eofPaths)
 	}
 }
